@@ -237,6 +237,27 @@ func Run(c *vk.Ctx) {
 			}
 		}
 	}
+	// three sources whose time column is in three different units, every order (both tiers)
+	{
+		var tri []P
+		for _, tvi := range []int{0, 2, 3} { // t in ms, us, s
+			tri = append(tri, P{Set: 1, Val: 1, TV: tvi}, P{Set: 3, Val: 0, TV: tvi})
+		}
+		for _, p1 := range tri {
+			for _, p2 := range tri {
+				for _, p3 := range tri {
+					if p1.TV == p2.TV || p2.TV == p3.TV || p1.TV == p3.TV {
+						continue
+					}
+					if c.Mine(idx) {
+						checkCase(c, data, aps, []P{p1, p2, p3}, nil, "plain", false)
+						checkCase(c, data, aps, []P{p1}, []P{p2, p3}, "base", false)
+					}
+					idx++
+				}
+			}
+		}
+	}
 	if c.Thorough() {
 		// three sources; two sources and a base: type variants 0..3 and stack sets 0..1 to bound the product
 		var sub []P
